@@ -34,7 +34,7 @@ def _gen_body(rng, ids, reqs, is_main, gl_positions):
     items = []
     n = rng.choice([0, 1, 2, 3, 4, 6])
     kinds = ['m', 'm', 'ml', 'mt', 'mf', 'mfm', 'if', 'sif', 'cm', 'blank',
-             'nested-gl', 'do', 'glprefix', 'glmember']
+             'nested-gl', 'do', 'glprefix', 'glmember', 'mls']
     for _ in range(n):
         items.append({'t': rng.choice(kinds), 'id': ids.next()})
     for (pi, ugl) in reqs:
@@ -76,8 +76,16 @@ def generate(rng, prop, tier, index):
             # unusual but legal file names / require strings
             name += rng.choice(['.v2', '-x', ' sp', "'q", '"dq', '\\b',
                                 '\\n1', '.lua', '%d', ']]x', 'a\\'])
-        pkgs.append({'name': name, 'dir': rng.choice(DIRS),
-                     'final_newline': rng.random() < 0.75})
+        pk = {'name': name, 'dir': rng.choice(DIRS),
+              'final_newline': rng.random() < 0.75}
+        if rng.random() < 0.12:
+            pk['crlf'] = True            # saved with CRLF line ends
+        if rng.random() < 0.12 and '/' not in name:
+            # lives in a directory of its own name: <name>/<name>.lua,
+            # reachable through a load-path entry with two `?`
+            pk['dir'] = ''
+            pk['selfdir'] = True
+        pkgs.append(pk)
     # edges: main -> some; package -> some (chains, diamonds, cycles, self)
     ugl = {i: (rng.random() < 0.25) for i in range(npk)}
     edges = {-1: []}
@@ -130,12 +138,30 @@ def _dir_of(sc, i):
     return 'proj/' + ('' if i == -1 else sc['pkgs'][i]['dir'])
 
 
+def _file_of(sc, i):
+    """Store-relative path of package i's file."""
+    p = sc['pkgs'][i]
+    if p.get('selfdir'):
+        return 'proj/%s/%s.lua' % (p['name'], p['name'])
+    return _dir_of(sc, i) + p['name'] + '.lua'
+
+
+def _req_dir_of(sc, i):
+    """The directory in which package i's own require() calls are
+    resolved (the directory of its file)."""
+    if i != -1 and sc['pkgs'][i].get('selfdir'):
+        return 'proj/%s/' % sc['pkgs'][i]['name']
+    return _dir_of(sc, i)
+
+
 def _req_string(sc, frm, to):
     """The require string used in file `frm` for package `to`: the path of
     the package file relative to the requiring file's directory, without
     extension (resolved by the default `?;?.lua` or the custom path)."""
+    if sc['pkgs'][to].get('selfdir'):
+        return None                  # by bare name through `<root>/?/?.lua`
     rel = os.path.relpath(_dir_of(sc, to) + sc['pkgs'][to]['name'],
-                          _dir_of(sc, frm))
+                          _req_dir_of(sc, frm))
     if rel.startswith('..'):
         # not reachable with a relative string: reachable through the custom
         # load path only (lib root)
@@ -169,6 +195,8 @@ def _item_text(sc, frm, it, lua_path_mode):
     if t == 'nested-gl':
         return 'function fn_%d()\n function _draw() mk_%d=%d end\nend' % (
             i, i, i)
+    if t == 'mls':
+        return 'mk_%d=[[line one %d\nline two\n]]' % (i, i)
     if t == 'glprefix':
         # names that merely start with a game-loop function's name
         nm = ('_init2', '_updater', '_update600', '_drawn', '_draw_all',
@@ -273,7 +301,8 @@ def req_name(sc, frm, to):
     if s is None:
         # reachable only through the load path rooted at proj/: the scenario
         # then uses a load path with an absolute or main-relative entry
-        s = '@' + sc['pkgs'][to]['dir'] + sc['pkgs'][to]['name']
+        s = '@' + ('' if sc['pkgs'][to].get('selfdir')
+                   else sc['pkgs'][to]['dir']) + sc['pkgs'][to]['name']
     return s
 
 
@@ -308,6 +337,10 @@ def strip_ws_comments(text):
     dropped too: where a statement is stripped the statement leaves it open
     whether its separator goes with it (`a;;b` and `a;b` are the same
     program)."""
+    # the contents of long strings are data, not layout: keep them exactly
+    text = re.sub(r'\[\[(.*?)\]\]',
+                  lambda m: '[[' + m.group(1).encode('latin-1').hex() + ']]',
+                  text, flags=re.S)
     text = re.sub(r'--[^\n]*', '', text)
     return re.sub(r'[\s;]+', '', text)
 
@@ -323,7 +356,10 @@ def expected_block(sc, i, stripped):
         if it['t'] == 'gl' and stripped:
             continue
         parts.append(_item_text(sc, i, it, sc['lua_path']))
-    return strip_ws_comments('\n'.join(parts))
+    text = '\n'.join(parts)
+    if f.get('crlf'):
+        text = text.replace('\n', '\r\n')
+    return strip_ws_comments(text)
 
 
 # ---------------------------------------------------------------------------
@@ -360,7 +396,19 @@ def _lua_path_value(sc, w):
         val = '?;?.lua;%s?.lua' % absroot
     else:
         val = '?.lua;?;%s?.lua' % absroot
+    if any(p.get('selfdir') for p in sc['pkgs']):
+        val += ';%s?/?.lua' % absroot
     return ('env' if how == 'env' else 'arg'), val
+
+
+def _file_bytes(sc, i):
+    """What is stored in package i's file (CRLF line ends if the package
+    says so; the contents of long strings then contain CRLF too, exactly as
+    an editor on that platform would save them)."""
+    text = _fix_at(render(sc, i))
+    if sc['pkgs'][i].get('crlf'):
+        text = text.replace('\n', '\r\n')
+    return text.encode()
 
 
 def _fix_at(text):
@@ -375,7 +423,7 @@ def model_traverse(sc, w, lp_value):
     path = lp_value or '?;?.lua'
 
     def resolve(name, frm):
-        base = w.p(_dir_of(sc, frm))
+        base = w.p(_req_dir_of(sc, frm))
         for entry in path.split(';'):
             cand = entry.replace('?', name)
             if not cand.startswith('/'):
@@ -400,8 +448,7 @@ def model_traverse(sc, w, lp_value):
             # which package file is it?
             idx = None
             for j, p in enumerate(sc['pkgs']):
-                if os.path.normpath(w.p(_dir_of(sc, j) + p['name'] +
-                                        '.lua')) == target:
+                if os.path.normpath(w.p(_file_of(sc, j))) == target:
                     idx = j
             if idx is None:
                 return ('unknown-file', name)
@@ -432,8 +479,7 @@ def execute(sc):
         for i, p in enumerate(sc2['pkgs']):
             if fk == 'ENOENT' and fault['pkg'] == i:
                 continue
-            w.put(_dir_of(sc2, i) + p['name'] + '.lua',
-                  _fix_at(render(sc2, i)).encode())
+            w.put(_file_of(sc2, i), _file_bytes(sc2, i))
         main_text = _fix_at(render(sc2, -1))
         w.put('proj/main.lua', main_text.encode())
         out_rel = 'out/out.p8' + ('.png' if sc['out_fmt'] == 'png' else '')
@@ -466,9 +512,8 @@ def execute(sc):
             for i, p in enumerate(sc2['pkgs']):
                 if fk == 'ENOENT' and fault['pkg'] == i:
                     continue
-                w.put(_dir_of(sc2, i) + p['name'] + '.lua',
-                      ('old_%d=1\n' % i).encode() +
-                      _fix_at(render(sc2, i)).encode())
+                w.put(_file_of(sc2, i), ('old_%d=1\n' % i).encode() +
+                      _file_bytes(sc2, i))
             w.put('proj/main.lua', b'old_main=1\n' + main_text.encode())
             try:
                 rrc = tool.main(argv)
@@ -479,8 +524,7 @@ def execute(sc):
             for i, p in enumerate(sc2['pkgs']):
                 if fk == 'ENOENT' and fault['pkg'] == i:
                     continue
-                w.put(_dir_of(sc2, i) + p['name'] + '.lua',
-                      _fix_at(render(sc2, i)).encode())
+                w.put(_file_of(sc2, i), _file_bytes(sc2, i))
             w.put('proj/main.lua', main_text.encode())
             if sc.get('out_prior') != 'cart' and os.path.exists(
                     w.p(out_rel)):
@@ -489,7 +533,28 @@ def execute(sc):
                 w.put(out_rel, refcodec.encode_any(out_rel, prior))
             w.err.seek(0)
             w.err.truncate(0)
-        if sc.get('warmup'):
+        if sc.get('warmup') == 'failing-with-path':
+            # an unrelated build with an explicit load path failed earlier in
+            # this process; its load path names a directory of same-named
+            # decoy packages that this build must never see
+            for frm in [-1] + list(range(len(sc2['pkgs']))):
+                f = sc2['main'] if frm == -1 else sc2['pkgs'][frm]
+                for it in f['items']:
+                    if it['t'] == 'req':
+                        nm = req_name(sc2, frm, it['pkg']).lstrip('@')
+                        w.put('proj/decoys/' + nm + '.lua',
+                              b'decoy_package=1\n')
+            w.put('warm/main.lua', b'warm_main=1\nrequire("nosuchpkg")\n')
+            try:
+                tool.main(['build', w.p('warm/out.p8'), '--lua',
+                           w.p('warm/main.lua'), '--lua-path',
+                           '%s/?.lua;?;?.lua' % w.p('proj/decoys')])
+            except BaseException:
+                pass
+            core.bump(res['probes'], 'earlier-failing-build-with-load-path')
+            w.err.seek(0)
+            w.err.truncate(0)
+        elif sc.get('warmup'):
             # an unrelated project is built first in the same process: nothing
             # of it may show up in (or influence) the build under test
             w.put('warm/main.lua', b'warm_main=1\nrequire("w0")\n'
@@ -811,7 +876,7 @@ def generate(rng, prop, tier, index):      # noqa: F811
     if _has_cycle(sc) and index % 3 == 0:
         sc['traced'] = True
     if index % 5 == 2:
-        sc['warmup'] = True
+        sc['warmup'] = True if index % 10 == 2 else 'failing-with-path'
     if index % 5 == 4:
         sc['rebuild'] = True
     sc['global_flags'] = [[], [], [], ['--debug'], ['-q']][index % 5] \
